@@ -30,3 +30,17 @@ func StaleUnblock(kind int, procs int) hx.Sx {
 	plan := hx.L(hx.L(hx.I(400), hx.I(0)))
 	return hx.L(cfg, hx.L(feeder), plan)
 }
+
+// Starvation builds the directed schedule "a charged stream must be served while a processor is idle":
+// two processors asleep; stream A (source 1) gets ONE probe event at the same instant at which stream
+// B (source 2) starts to be fed continuously for floodMs. With every makeCharged signalling, the second
+// sleeping processor serves A at once; if a wake-up is lost A waits until B runs dry.
+func Starvation(procs, floodMs, boundMs int) hx.Sx {
+	js := func(stream string) hx.Sx { return hx.S(fmt.Sprintf(`{"stream":"%s","ops":"p","m":"11"}`, stream)) }
+	cfg := hx.L(hx.I(procs), hx.I(0), hx.I(64), hx.I(40), hx.I(1), hx.I(0), hx.I(1), hx.I(4), hx.I(15), hx.I(0), hx.I(0), hx.I(0), hx.I(0))
+	// one feeder: the probe of stream A and the first event of stream B are put back to back (microseconds
+	// apart), so that the second makeCharged lands before the processor woken by the first one runs
+	f := hx.L(hx.L(hx.I(1), hx.I(30)), hx.L(hx.I(4), hx.I(1), hx.I(10), js("a"), hx.I(boundMs)),
+		hx.L(hx.I(5), hx.I(2), hx.I(100), js("b"), hx.I(floodMs), hx.I(200)))
+	return hx.L(cfg, hx.L(f), hx.L())
+}
